@@ -484,10 +484,30 @@ Definition gov_endblock (t : time) (burns converts : list Z) (s : state) : state
   let s1 := fold_left drop_inactive (filter (fun x => fst x <=? t) (inactiveq (gov s))) s in
   fold_left (close_active burns converts) (filter (fun x => fst x <=? t) (activeq (gov s1))) s1.
 
+(* staking EndBlocker, validator part (ApplyAndReturnValidatorSetUpdates, UnbondAllMatureValidators) as far as it
+   touches stores of this model: a validator leaving the active set (bondedToUnbonding) has its tokens moved from the
+   bonded to the not-bonded pool and gets an unbonding id registered in the unbonding-id index 0x38 (UKval); one
+   entering it has its tokens moved back; a validator whose own unbonding period ends has its ids deleted from the
+   index.  Which validators change state is decided by validator-side arithmetic (power = tokens / PowerReduction,
+   MaxValidators) that is not modelled: the net pool movement and the index writes are inputs of the end-block step,
+   read by the harness from the real VALIDATOR records before and after the block (status, tokens, UnbondingIds) —
+   not from the compared pool balance or index — in the same way as the tally's burn / conversion decisions. *)
+Record vside := { v_pool : Z; v_set : list (Z * addr); v_del : list Z }.
+Definition no_vside : vside := {| v_pool := 0; v_set := []; v_del := [] |}.
+
+Definition valset_update (vs : vside) (s : state) : state :=
+  let k := stake s in
+  let idx1 := fold_left (fun m x => sset Z.eqb (fst x) (UKval (snd x)) m) (v_set vs) (unbidx k) in
+  let idx2 := fold_left (fun m id => sdel Z.eqb id m) (v_del vs) idx1 in
+  let s1 := set_stake s (set_unbidx k idx2) in
+  if v_pool vs =? 0 then s1
+  else set_bal s1 (put_bal (pool_nb (cfg s)) (bond_denom (cfg s))
+                           (get_bal (pool_nb (cfg s)) (bond_denom (cfg s)) (bal s1) + v_pool vs) (bal s1)).
+
 (* the block with time t ends; the next block's transactions run at time `next` *)
-Definition end_block (t next : time) (burns converts : list Z) (s : state) : state :=
+Definition end_block (t next : time) (burns converts : list Z) (vs : vside) (s : state) : state :=
   let s1 := gov_endblock t burns converts (set_clock s t (height s)) in
-  let s2 := staking_endblock t s1 in
+  let s2 := staking_endblock t (valset_update vs s1) in
   set_clock s2 next (height s + 1).
 
 (* ---------- gov transactions (valid inputs only; failures leave the state unchanged) ---------- *)
@@ -576,7 +596,7 @@ Section Ops.
 
   Inductive op :=
   | OMigrate (from to : addr) (sg : option sigT)
-  | OEndBlock (t next : time) (burns converts : list Z)
+  | OEndBlock (t next : time) (burns converts : list Z) (vs : vside)
   | OSubmit (a : addr) (amt : Z) (exp : bool) (vp : time) (mind : Z)
   | ODeposit (a : addr) (pid amt : Z)
   | OVote (a : addr) (pid : Z)
@@ -589,7 +609,7 @@ Section Ops.
   Definition step (s : state) (o : op) : state :=
     match o with
     | OMigrate f t sg => keep s (migrate_tx sigT recover s f t sg)
-    | OEndBlock t n b c => end_block t n b c s
+    | OEndBlock t n b c vs => end_block t n b c vs s
     | OSubmit a amt x vp m => keep s (submit_proposal a amt x vp m s)
     | ODeposit a pid amt => keep s (add_deposit pid a amt s)
     | OVote a pid => keep s (cast_vote a pid s)
